@@ -790,6 +790,14 @@ impl<'a> Ev<'a> {
                 self.sites.push(json!({"macro":name,"sink":recv,"sink_text":tok(&m.receiver),"fmt":f,"nl":false,"line":line,"guard":self.guard_json(),"parent":parent}));
             }
         }
+        // --- `x.clone_from(v)` overwrites x with (a clone of) v: an assignment in all but syntax ---
+        if name == "clone_from" && args.len() == 1 && self.silent == 0 {
+            let mut val = args[0].clone();
+            while matches!(val.get("k").and_then(|k| k.as_str()), Some("ref") | Some("paren")) {
+                val = val["v"].clone();
+            }
+            self.assigns.push(json!({"target":recv,"op":"=","value":val,"line":line,"guard":self.guard_json(),"text":tok(&m.receiver),"via":"clone_from"}));
+        }
         // --- local container mutation ---
         if matches!(name.as_str(), "push" | "insert" | "push_str" | "extend" | "append" | "push_back") {
             if let Expr::Path(p) = &*m.receiver {
